@@ -4,6 +4,8 @@ import PyodaProofs.C07Stepped
 import PyodaProofs.C07Reformat
 import PyodaProofs.C07Instances
 import PyodaProofs.C07DateTime
+import PyodaProofs.C07Text
+import PyodaProofs.C07TextInstances
 
 #print axioms Pyoda.C07.parseDigits_leftPad
 #print axioms Pyoda.C07.parseDigits_pad2
@@ -54,3 +56,25 @@ import PyodaProofs.C07DateTime
 #print axioms Pyoda.C07.isoDateTime_compiles
 #print axioms Pyoda.C07.isoDateTime_delimited
 #print axioms Pyoda.C07.isoDateTime_generic_roundtrip
+#print axioms Pyoda.C07.mCI_short
+#print axioms Pyoda.C07.mCI_long
+#print axioms Pyoda.C07.findLongest_inv
+#print axioms Pyoda.C07.parseLongest_formatted
+#print axioms Pyoda.C07.monthText_roundtrip
+#print axioms Pyoda.C07.dayText_roundtrip
+#print axioms Pyoda.C07.amPm_roundtrip
+#print axioms Pyoda.C07.eraScan_sound
+#print axioms Pyoda.C07.era_roundtrip
+#print axioms Pyoda.C07.calendar_roundtrip
+#print axioms Pyoda.C07.notCharCI_sound
+#print axioms Pyoda.C07.invariant_monthNamesOK
+#print axioms Pyoda.C07.invariant_dayNamesOK
+#print axioms Pyoda.C07.invariant_amPmOK
+#print axioms Pyoda.C07.invariant_eraOK
+#print axioms Pyoda.C07.invariant_dangers
+#print axioms Pyoda.C07.longDate_compiles
+#print axioms Pyoda.C07.longDate_delimited
+#print axioms Pyoda.C07.longDate_generic_roundtrip
+#print axioms Pyoda.C07.clock_compiles
+#print axioms Pyoda.C07.clock_delimited
+#print axioms Pyoda.C07.clock_generic_roundtrip
